@@ -54,7 +54,8 @@ func aroundPow2(tape *simrt.Tape, q *big.Int, n int) *big.Int {
 		return x.Mod(x, q)
 	case 2:
 		x := new(big.Int).Lsh(bi(1), uint(n))
-		return x.Sub(x, bi(1))
+		x.Sub(x, bi(1))
+		return x.Mod(x, q) // a width of the field's bit length reaches beyond the modulus
 	case 3:
 		x := new(big.Int).Lsh(bi(1), uint(n))
 		x.Add(x, bi(int64(1+tape.Choose(simrt.SWorkload, 5))))
@@ -66,7 +67,8 @@ func aroundPow2(tape *simrt.Tape, q *big.Int, n int) *big.Int {
 			x.Lsh(x, 32).Or(x, bi(int64(tape.Raw(simrt.SWorkload))))
 		}
 		m := new(big.Int).Lsh(bi(1), uint(n))
-		return x.Mod(x, m)
+		x.Mod(x, m)
+		return x.Mod(x, q)
 	}
 }
 
@@ -226,7 +228,12 @@ func (c *gadgetCircuit) Define(api frontend.API) error {
 	case "partition":
 		probe(api, 1, selector.Partition(api, c.S, c.n == 1, c.In)...)
 	case "bitslice":
-		lo, hi := bitslice.Partition(api, c.A, uint(c.n), bitslice.WithNbDigits(int(c.bound.Int64())))
+		nd := int(c.bound.Int64())
+		if nd <= 0 {
+			// relative to the field: 0 = exactly the field's bit length, -1 = one below, ...
+			nd += api.Compiler().FieldBitLen()
+		}
+		lo, hi := bitslice.Partition(api, c.A, uint(c.n), bitslice.WithNbDigits(nd))
 		probe(api, 1, lo, hi)
 	case "uints32":
 		u, err := uints.New[uints.U32](api)
@@ -394,8 +401,12 @@ func gadgetCase(kind string, n int, bound int64) *gcase {
 					return eqInts(p[1], want...)
 				}
 			case "bitslice":
-				a = aroundPow2(tape, q, int(bound))
-				sat = a.BitLen() <= int(bound)
+				nd := int(bound)
+				if nd <= 0 {
+					nd += q.BitLen()
+				}
+				a = aroundPow2(tape, q, nd)
+				sat = a.BitLen() <= nd
 				check = func(p map[int][]*big.Int) string {
 					lo := new(big.Int).And(a, new(big.Int).Sub(new(big.Int).Lsh(bi(1), uint(n)), bi(1)))
 					hi := new(big.Int).Rsh(a, uint(n))
@@ -431,7 +442,7 @@ var c14Cases = []*gcase{
 	gadgetCase("map", 1, 0), gadgetCase("map", 4, 0), gadgetCase("map", 7, 0),
 	gadgetCase("slice", 2, 0), gadgetCase("slice", 5, 0), gadgetCase("slice", 8, 0),
 	gadgetCase("partition", 0, 3), gadgetCase("partition", 1, 6), gadgetCase("partition", 0, 9),
-	gadgetCase("bitslice", 4, 16), gadgetCase("bitslice", 13, 40), gadgetCase("bitslice", 1, 2),
+	gadgetCase("bitslice", 4, 16), gadgetCase("bitslice", 13, 40), gadgetCase("bitslice", 1, 2), gadgetCase("bitslice", 8, 0), gadgetCase("bitslice", 100, 0), gadgetCase("bitslice", 5, -1), gadgetCase("bitslice", 64, -2),
 	gadgetCase("uints32", 7, 0), gadgetCase("uints32", 31, 0), gadgetCase("byte", 0, 0),
 }
 
